@@ -8,7 +8,7 @@ from hypothesis import strategies as st
 
 from vf import zoo
 from vf.core import CaseResult, dtype_mode
-from vf.oracles import norm_cdf, norm_logpdf, quad_1d
+from vf.oracles import adaptive_quad_1d, norm_cdf, norm_logpdf, quad_1d
 
 PROPERTY = "C03"
 RULE = ("Flows assembled from zoo transforms (compositions of depth 1-4: spline CDFs with/without tails via "
@@ -34,7 +34,7 @@ NO = ["exp", "tanh", "sigmoid", "cauchycdf", "squeeze", "batchnorm"]
 
 @st.composite
 def _case(draw):
-    what = draw(st.sampled_from(["mass1d", "mass1d", "mass1d", "mass1d", "mass1d", "mass1d", "mass2d", "differential", "differential", "differential"]))
+    what = draw(st.sampled_from(["mass1d"] * 9 + ["mass2d"] + ["differential"] * 5))
     if what == "mass1d":
         c = draw(zoo.transform_case({"img": False, "flat_max": 1, "doms": ["R"], "fn_box": False, "multiscale": False, "umnn": False, "exclude": NO,
                                      "regimes": ["fresh", "zero", "small", "moderate", "nonuniform", "flatbin"]}))
@@ -45,6 +45,10 @@ def _case(draw):
             c["shape"] = [2]
             c["spec"] = {"t": "lu", "identity_init": False, "cache": False}
             c["ctx"] = None
+        if draw(st.integers(0, 3)) == 0:
+            # a gated linear unit whose single gate is broadcast over both features (context narrower than the data)
+            c["shape"], c["ctx"] = [2], draw(st.sampled_from([1, 2]))
+            c["spec"] = {"t": "composite", "parts": [{"t": "lu", "identity_init": False, "cache": False}, {"t": "glu"}]}
     else:
         c = draw(zoo.transform_case({"img": False, "flat_max": 6, "doms": ["R"], "fn_box": False, "umnn": False, "exclude": NO,
                                      "regimes": ["fresh", "small", "moderate", "nonuniform"]}))
@@ -147,7 +151,7 @@ def run_case(case):
         def logp(z):
             zt = torch.tensor(np.asarray(z, dtype=np.float64).reshape(-1, D))
             evals[0] += len(zt)
-            if evals[0] > (700000 if what == "mass2d" else 10 ** 7):
+            if evals[0] > (3000000 if what == "mass2d" else 10 ** 7):
                 raise _Budget()
             cc = c1.expand(len(zt), -1) if c1 is not None else None
             with torch.no_grad():
@@ -190,7 +194,9 @@ def run_case(case):
         breaks += [float(v) for v in b.specials if abs(v) < 1e3]
         # panel edges on a geometric ladder around 0 and a regular grid in [-60, 60]: an adaptive rule whose first panels are
         # hundreds wide (LogTanh stretches the 9-sigma box to +-1e4) would otherwise step over all of the mass
-        breaks += [sgn * 10.0 ** k for k in np.arange(-3, 7, 0.5) for sgn in (-1, 1)] + list(np.linspace(-60, 60, 6001))  # 0.02-wide first panels: knots of inner parts are not aligned after a linear/affine layer
+        breaks += [sgn * 10.0 ** k for k in np.arange(-3, 7, 0.5) for sgn in (-1, 1)]
+        breaks_2d = list(breaks)       # iterated 2-D quadrature: every extra panel edge multiplies the cost of each inner integral
+        breaks += list(np.linspace(-60, 60, 6001))  # 0.02-wide first panels: knots of inner parts are not aligned after a linear/affine layer
         clamp_allow = 5e-4 if "compositecdf" in json.dumps(case["spec"]) or "logit" in json.dumps(case["spec"]) else 0.0
 
         if what == "mass1d":
@@ -280,7 +286,7 @@ def run_case(case):
                 return res
             lo = xc.min(0) - 0.3 * (xc.max(0) - xc.min(0)) - 0.5
             hi = xc.max(0) + 0.3 * (xc.max(0) - xc.min(0)) + 0.5
-            br = sorted(set(breaks))
+            br = sorted(set(breaks_2d))
 
             inner_err = [0.0]
 
@@ -288,12 +294,14 @@ def run_case(case):
                 out = np.zeros(len(x0s))
                 for k, x0 in enumerate(x0s):
                     gq = lambda y: np.exp(logp(np.stack([np.full_like(y, x0), y], 1)))  # noqa
-                    v, e, _ = quad_1d(gq, lo[1], hi[1], br, tol=1e-7, max_evals=4000)
+                    v, e, _ = adaptive_quad_1d(gq, lo[1], hi[1], br, tol=1e-7, max_evals=4000, init_panels=8)
                     out[k] = v
                     inner_err[0] = max(inner_err[0], e)
                 return out
             try:
-                v, e, _ = quad_1d(outer, lo[0], hi[0], br, tol=1e-6, max_evals=900)
+                # (single-layout adaptive rule with few initial panels in both directions: the two-layout quad_1d starts from
+                #  161 panels = 3500 evaluations per integral, i.e. 1e7 density evaluations per case)
+                v, e, _ = adaptive_quad_1d(outer, lo[0], hi[0], br, tol=1e-6, max_evals=1500, init_panels=8)
             except Exception as ex:
                 if isinstance(ex, _Budget):
                     res.inconclusive += 1       # evaluation budget (case count / generated size, not wall clock) exhausted
